@@ -21,11 +21,8 @@ func c07Tags(entry string, n []uint64, f []string) string {
 		fallthrough
 	case "tags":
 		t, err := ParseTags(data)
-		if err != nil {
-			if strings.HasPrefix(err.Error(), "PPP-Max-Payload") {
-				return "err 2"
-			}
-			return "err 1"
+		if err != nil { // the property constrains that the input is rejected, not the error text or identity
+			return "err"
 		}
 		toks := append(prefix, c07TB([]byte(t.ServiceName)), c07TB([]byte(t.ACName)), c07TBN(t.HostUniq), c07TBN(t.ACCookie),
 			c07TBN(t.RelaySessionID), c07TBN(t.VendorSpecific), c07TB([]byte(t.AgentCircuitID)),
